@@ -1505,7 +1505,27 @@ pub trait QueryBuilder:
         if right_paren {
             write!(sql, "(").unwrap();
         }
-        self.prepare_simple_expr(right, sql);
+        match right {
+            // `lo AND hi` after BETWEEN is not a logical AND: a bound stays bare only if it
+            // binds tighter than BETWEEN itself
+            SimpleExpr::Binary(lo, _, hi) if drop_right_between_hack => {
+                for (i, bound) in [lo, hi].into_iter().enumerate() {
+                    if i > 0 {
+                        write!(sql, " AND ").unwrap();
+                    }
+                    let bound_paren =
+                        !self.inner_expr_well_known_greater_precedence(bound, &op_as_oper);
+                    if bound_paren {
+                        write!(sql, "(").unwrap();
+                    }
+                    self.prepare_simple_expr(bound, sql);
+                    if bound_paren {
+                        write!(sql, ")").unwrap();
+                    }
+                }
+            }
+            _ => self.prepare_simple_expr(right, sql),
+        }
         if right_paren {
             write!(sql, ")").unwrap();
         }
